@@ -69,6 +69,7 @@ func loadReviewed() map[string]string {
 		return reviewedCache
 	}
 	for _, r := range rs {
+		r.Key, r.Alt = normIdx(r.Key), normIdx(r.Alt)
 		reviewedCache[r.Key] = r.Reason
 		if r.Count == 0 {
 			r.Count = 1
@@ -138,7 +139,20 @@ var paramRe = regexp.MustCompile(`param#(\d+)`)
 
 // sigString rewrites param#i to the parameter's type name so that adding or reordering
 // parameters does not change a signature.
+// normIdx renders the cursor of an ascending loop from 0 the same way whether the loop is written
+// with range (φ{-1 | …}+1) or with an index variable (φ{0 | …+1}): ledger keys survive that rewrite.
+func normIdx(s string) string {
+	for _, form := range []string{"(φ{-1 | …} + 1)", "φ{(… + 1) | 0}", "φ{0 | (… + 1)}"} {
+		s = strings.ReplaceAll(s, form, "ι")
+	}
+	return s
+}
+
 func sigString(fn *ssa.Function, s string) string {
+	return normIdx(sigStringRaw(fn, s))
+}
+
+func sigStringRaw(fn *ssa.Function, s string) string {
 	return paramRe.ReplaceAllStringFunc(s, func(m string) string {
 		var i int
 		fmt.Sscanf(m, "param#%d", &i)
